@@ -12,6 +12,14 @@ pub mod layout {
         // `include_str!` (eager expansion) needs a determinate resolution of the macro `env`
         pub use crate::seams::shadow_std::env;
     }
+    /// crates of the repository's lock file that do I/O or start threads of their own are the
+    /// simulator's look-alikes (a name in scope wins over the extern crate in `use` paths)
+    mod walkdir {
+        pub use crate::seams::shim_walkdir::*;
+    }
+    mod rayon {
+        pub use crate::seams::shim_rayon::*;
+    }
     macro_rules! println {
         () => { crate::seams::emit(format_args!(""), true) };
         ($($t:tt)*) => { crate::seams::emit(format_args!($($t)*), true) };
@@ -50,6 +58,14 @@ pub mod likely {
         // named, not only globbed: `use std::env;` followed by `env!(..)` inside `concat!` /
         // `include_str!` (eager expansion) needs a determinate resolution of the macro `env`
         pub use crate::seams::shadow_std::env;
+    }
+    /// crates of the repository's lock file that do I/O or start threads of their own are the
+    /// simulator's look-alikes (a name in scope wins over the extern crate in `use` paths)
+    mod walkdir {
+        pub use crate::seams::shim_walkdir::*;
+    }
+    mod rayon {
+        pub use crate::seams::shim_rayon::*;
     }
     macro_rules! println {
         () => { crate::seams::emit(format_args!(""), true) };
